@@ -471,6 +471,13 @@ func runEngine(t *tokens) string {
 			return "run=harness-cannot-start-child"
 		}
 		go func() { done <- cmd.Wait() }()
+		defer func() { // a child that died could not remove its answlog file
+			if m, _ := filepath.Glob(filepath.Join(os.TempDir(), fmt.Sprintf("hC19-answ-%d-*.log", cmd.Process.Pid))); m != nil {
+				for _, f := range m {
+					_ = os.Remove(f)
+				}
+			}
+		}()
 		select {
 		case err := <-done:
 			res := strings.TrimSpace(out.String())
